@@ -109,6 +109,7 @@ func (a *Application) providerProxyHandler(w http.ResponseWriter, r *http.Reques
 	r.URL.Path = pr.targetPath
 
 	a.logRequestStart(pr, len(endpoints))
+	w = &responseStartTracker{ResponseWriter: w}
 	err = a.executeProxyRequest(ctx, w, r, endpoints, pr)
 	a.logRequestResult(pr, err)
 
